@@ -239,21 +239,21 @@ func stripBang(s *sx) *sx {
 }
 
 type instantiator struct {
-	cands   []string
-	out     []string
-	limit   int
-	seen    map[string]bool
-	newDecl []string
-	fresh   *int
-	max2    int
-	lens    []string
-	prime   []string // skolem constants (goal and hypotheses): first in the candidate order
+	cands    []string
+	out      []string
+	limit    int
+	seen     map[string]bool
+	newDecl  []string
+	fresh    *int
+	max2     int
+	lens     []string
+	prime    []string // skolem constants (goal and hypotheses): first in the candidate order
 	variants []string // skolem +-1, skolem - length: last in the candidate order
 	refCands []string // object references (for binders over pointers)
 	refPrime []string // skolem constants of object binders
 	nest     int
-	trig     bool     // the instance being emitted comes from a trigger (not from blind enumeration)
-	trigOut  []string // trigger-generated instances (their abstract-function terms become triggers in turn)
+	trig     bool           // the instance being emitted comes from a trigger (not from blind enumeration)
+	trigOut  []string       // trigger-generated instances (their abstract-function terms become triggers in turn)
 	absPrio  map[string]int // abstract-function argument term -> priority (0 goal, 1 path, 2 instances)
 	curPrio  int
 	absArgs  map[string][][]string // ground applications of abstract spec functions: function -> argument lists
